@@ -439,6 +439,10 @@ func (f *Frame) inline(v ssa.Value, callee *ssa.Function, args []Val, st *state,
 	g := u.newFrame(callee, nil, f.depth+1)
 	g.recoverVal = ""
 	g.frame = f.frame
+	if u.structKeys {
+		g.summarise = f.summarise
+		g.redirect = f.redirect
+	}
 	for i, p := range callee.Params {
 		if i < len(args) {
 			g.vals[p] = args[i]
@@ -1689,7 +1693,9 @@ func (f *Frame) abstractCall(v ssa.Value, callee *ssa.Function, sig *types.Signa
 	}
 	var outs []Val
 	for _, a := range args {
-		if a.T == "" || a.Loc != nil {
+		if a.T == "" || (a.Loc != nil && (a.Addr || !u.structKeys)) {
+			// (a value merely loaded from a location is an ordinary value; the pair obligations
+			// rely on that, the older sweeps keep their behaviour)
 			ok = false
 			break
 		}
@@ -1714,6 +1720,10 @@ func (f *Frame) abstractCall(v ssa.Value, callee *ssa.Function, sig *types.Signa
 	u.scalar("$hv", "Int")
 	sorts = append(sorts, "Int")
 	ts = append(ts, u.hget(st.heap, "$hv"))
+	calleeName := callee.String()
+	if u.structKeys {
+		calleeName = u.W.calleeKey(callee, f.redirect)
+	}
 	for k, a := range outs {
 		el := a.Typ.Underlying().(*types.Pointer).Elem()
 		if stt, isSt := el.Underlying().(*types.Struct); isSt {
@@ -1723,7 +1733,7 @@ func (f *Frame) abstractCall(v ssa.Value, callee *ssa.Function, sig *types.Signa
 				if strings.HasPrefix(es, "(Array") {
 					continue // embedded array fields: left as they are
 				}
-				fn := u.D.Fun(fmt.Sprintf("abs:%s#out%d.%d", callee.String(), k, i), sorts, es)
+				fn := u.D.Fun(fmt.Sprintf("abs:%s#out%d.%d", calleeName, k, i), sorts, es)
 				t := u.define("abs", es, app(fn, ts...))
 				u.assumeRange(t, stt.Field(i).Type())
 				u.hset(st.heap, arr, sto(u.hget(st.heap, arr), a.T, t))
@@ -1732,7 +1742,7 @@ func (f *Frame) abstractCall(v ssa.Value, callee *ssa.Function, sig *types.Signa
 		}
 		arr, _ := u.cellArr(el)
 		es := u.D.SortOf(el)
-		fn := u.D.Fun(fmt.Sprintf("abs:%s#out%d", callee.String(), k), sorts, es)
+		fn := u.D.Fun(fmt.Sprintf("abs:%s#out%d", calleeName, k), sorts, es)
 		t := u.define("abs", es, app(fn, ts...))
 		u.assumeRange(t, el)
 		u.wellFormedLoaded(st.heap, t, el)
@@ -1741,7 +1751,7 @@ func (f *Frame) abstractCall(v ssa.Value, callee *ssa.Function, sig *types.Signa
 	var rs []Val
 	for i := 0; i < sig.Results().Len(); i++ {
 		rt := sig.Results().At(i).Type()
-		fn := u.D.Fun(fmt.Sprintf("abs:%s#%d", callee.String(), i), sorts, u.D.SortOf(rt))
+		fn := u.D.Fun(fmt.Sprintf("abs:%s#%d", calleeName, i), sorts, u.D.SortOf(rt))
 		t := u.define("abs", u.D.SortOf(rt), app(fn, ts...))
 		u.assumeRange(t, rt)
 		u.wellFormedLoaded(st.heap, t, rt)
